@@ -88,6 +88,10 @@ class StackWorld(object):
     else:
       from scales.thriftmux.builder import ThriftMux
       b = ThriftMux.NewBuilder(H.Iface, params.get('client_id', 'cid'))
+      if params.get('mux_pool') == 'singleton':
+        # a singleton pool in front of the multiplexed transport (the composition SingletonPoolSink is meant for)
+        from scales.pool.singleton import SingletonPoolSink
+        b.InsertSink(len(b._stack) - 1, SingletonPoolSink.Builder())
     b.SetUri('tcp://' + ','.join('%s:%d' % a for a in self.addrs))
     if params.get('scripted_serverset'):
       Prov = stubs.make_provider_class()
